@@ -93,6 +93,13 @@ pub fn to_json(s: &[Decision], img: &FsImage) -> Value {
                 Decision::Timeout { fired } => json!({ "op": "timed_wait", "deadline_passed": fired }),
                 Decision::Program { name, available } => json!({ "op": "external_program", "name": name, "installed": available }),
                 Decision::FdLimit { n } => json!({ "op": "open_file_limit", "ulimit_n": n }),
+                Decision::WriteFault { at } => {
+                    if *at == crate::world::NO_FAULT {
+                        json!({ "op": "disk_full", "errno": "none" })
+                    } else {
+                        json!({ "op": "disk_full", "errno": "ENOSPC", "after_bytes": at })
+                    }
+                }
                 Decision::ReadFault { at } => {
                     if *at == crate::world::NO_FAULT {
                         json!({ "op": "read_error", "errno": "none" })
@@ -163,6 +170,11 @@ pub fn from_json(v: &Value, img: &FsImage) -> Result<Vec<Decision>, String> {
             Some("read_error") => {
                 if let Some(at) = e["at_read"].as_u64() {
                     out.push(Decision::ReadFault { at });
+                }
+            }
+            Some("disk_full") => {
+                if let Some(at) = e["after_bytes"].as_u64() {
+                    out.push(Decision::WriteFault { at });
                 }
             }
             o => return Err(format!("unknown schedule op {:?}", o)),
